@@ -104,6 +104,22 @@ CLAIMED["C10"] = (
     "DESIGN.md §5 C10",
 )
 
+CLAIMED["C11"] = (
+    "Writing side proved: for the non-identity conversions (angle, positive fixed angle, percentage family, font scale, "
+    "spacing points) kernel-checked theorems say the written integer lies in the schema type's value space for EVERY "
+    "accepted input (exact rationals; half-even rounding never leaves an interval with integer end points; emod bounds), "
+    "and for each plain integer simple-type class the measured accept interval is inside the facet interval of the schema "
+    "type resolved through the attribute declarations (rows regenerated each run; `decide +kernel`).  Tied to the code by "
+    "exact comparison of every conversion with the model on boundary / half-quantum inputs, and by an independent oracle: "
+    "each written string is validated by lxml against the attribute's XSD simple type; rejected values must raise "
+    "TypeError/ValueError; every lexical alternative of the schema type must be readable; read(write v) within the quantum.",
+    "Reading side (lexical alternatives, enumeration tokens) is oracle-checked, not proved; accept intervals are measured by "
+    "probing validate(); IEEE rounding within a hair of a half-quantum is classified as a float artefact unless the written "
+    "value leaves the schema space; NaN/inf outside the quantifier.",
+    "Lean 4 proof (interval arithmetic over exact rationals) + translator rows + lxml-XSD lexical oracle",
+    "DESIGN.md §5 C11",
+)
+
 NOT_YET = {}
 
 
